@@ -10,10 +10,11 @@ Model: `Rfsm.Expr` (`ExprLexer`, `ExprParser`, `ExprData`, `ExprEval`), a transc
 `src/datamodel/mod.rs` and the compile cache of `src/datamodel/expression_engine.rs`.
 Doubles are abstract (`DoubleOps`): nothing below depends on floating point.
 
-The unchanged code violates the grouping clause ("equal-precedence binary operators grouped left
-to right"): `stack_to_expression` folds the *last* operator of the best priority first, so chains
-group to the right (`10 - 4 - 3 = 9`).  The model reproduces that; `C10_counterexample_*` prove it
-about the model and the harness replays the same inputs on the real code.
+State after the repairs: the grouping clause holds at full strength (`C10_grouping`: equal
+priorities group left to right, `=`/`?=` to the right; `10 - 4 - 3 = 3` is a regression theorem),
+integers are compared exactly (`C10_compare_integers`), `-e` no longer swallows the letter.  Still
+false: `1-2` is not `1 - 2` (`C10_counterexample_whitespace`: a `-` directly before a digit is
+always the sign of a literal); still unproved: `C10_parens_full` (tested, see below).
 -/
 namespace Rfsm.Expr
 
@@ -22,8 +23,7 @@ namespace Rfsm.Expr
 /-
 `BTree`, `BTree.toExpr`, `BTree.inorder`, `BTree.topPrio`, `WellGrouped` (documented grouping:
 left subtree binds at least as tightly, right subtree strictly tighter; the other way round for
-`=`/`?=`), `RightGrouped` (what the code does) and `chainStack` are defined in
-`Rfsm.Proofs.ExprGrouping`.
+`=`/`?=`) and `chainStack` are defined in `Rfsm.Proofs.ExprGrouping`.
 -/
 
 def binaryOps (rest : List (Op × Expr)) : Prop := ∀ p ∈ rest, p.1 ≠ .not
@@ -64,116 +64,45 @@ def C10_whitespace_full : Prop := C10_whitespace_gap ∧ C10_whitespace_tight
 def C10_full : Prop :=
   C10_grouping_full ∧ C10_cache_full ∧ C10_parens_full ∧ C10_whitespace_full
 
-/-! ### the code groups to the right: counterexample to the grouping clause -/
+/-! ### the former counterexamples, on the model of the repaired code (regression) -/
 
 /-- `10 - 4 - 3` -/
 def text_10_4_3 : Str := [49, 48, 32, 45, 32, 52, 32, 45, 32, 51]
 
-theorem C10_counterexample_parse :
+theorem C10_regression_parse :
     parse text_10_4_3 =
-      .ok (.op .minus (.const (.int 10)) (.op .minus (.const (.int 4)) (.const (.int 3)))) := rfl
-#assert_axioms C10_counterexample_parse
+      .ok (.op .minus (.op .minus (.const (.int 10)) (.const (.int 4))) (.const (.int 3))) := rfl
+#assert_axioms C10_regression_parse
 
-/-- `10 - 4 - 3` evaluates to 9, not 3 (for every `DoubleOps`) -/
-theorem C10_counterexample_value {D : Type} (ops : DoubleOps D) :
+/-- `10 - 4 - 3` evaluates to 3 (for every `DoubleOps`) -/
+theorem C10_regression_value {D : Type} (ops : DoubleOps D) :
     (execute ops text_10_4_3 ⟨[], [], []⟩).2 = .ok ⟨4, false⟩ ∧
-    (execute ops text_10_4_3 ⟨[], [], []⟩).1.get 4 = .int 9 := ⟨rfl, rfl⟩
-#assert_axioms C10_counterexample_value
+    (execute ops text_10_4_3 ⟨[], [], []⟩).1.get 4 = .int 3 := ⟨rfl, rfl⟩
+#assert_axioms C10_regression_value
 
-/-- `100 / 10 / 5` parses as `100 / (10 / 5)` -/
-theorem C10_counterexample_divide :
+/-- `100 / 10 / 5` parses as `(100 / 10) / 5` -/
+theorem C10_regression_divide :
     parse [49, 48, 48, 32, 47, 32, 49, 48, 32, 47, 32, 53] =
-      .ok (.op .divide (.const (.int 100)) (.op .divide (.const (.int 10)) (.const (.int 5)))) := rfl
-#assert_axioms C10_counterexample_divide
+      .ok (.op .divide (.op .divide (.const (.int 100)) (.const (.int 10))) (.const (.int 5))) := rfl
+#assert_axioms C10_regression_divide
 
-theorem inorder_leaf_of_nil_aux {t : BTree} {a : Expr} (h : t.inorder = (a, [])) : t = .leaf a := by
-  cases t with
-  | leaf e => simp [BTree.inorder] at h; rw [h]
-  | node o l r =>
-    simp only [BTree.inorder] at h
-    have := congrArg (fun p => p.2.length) h
-    simp at this
-#assert_axioms inorder_leaf_of_nil_aux
+/-- assignments still group to the right: `a = b = 1` is `a = (b = 1)` -/
+theorem C10_regression_assign_right :
+    parse [97, 32, 61, 32, 98, 32, 61, 32, 49] =
+      .ok (.assign (.var [97]) (.assign (.var [98]) (.const (.int 1)))) := rfl
+#assert_axioms C10_regression_assign_right
 
-/-- the grouping clause fails on the model of the unchanged code -/
-theorem C10_counterexample : ¬ C10_grouping_full := by
-  intro h
-  obtain ⟨t, hin, hw, hs⟩ :=
-    h (.const (.int 10)) [(.minus, .const (.int 4)), (.minus, .const (.int 3))]
-      (by intro p hp; simp at hp; rcases hp with rfl | rfl <;> simp)
-  -- what the code computes
-  have hcode : stackToExpr (stackFuel (chainStack (.const (.int 10))
-        [(.minus, .const (.int 4)), (.minus, .const (.int 3))]))
-      (chainStack (.const (.int 10)) [(.minus, .const (.int 4)), (.minus, .const (.int 3))]) =
-      .ok (some (.op .minus (.const (.int 10)) (.op .minus (.const (.int 4)) (.const (.int 3))))) [] := rfl
-  rw [hcode] at hs
-  -- a well grouped tree with this in-order reading is ((10 - 4) - 3)
-  cases t with
-  | leaf e => simp [BTree.inorder] at hin
-  | node o l r =>
-    cases hl : l.inorder with
-    | mk a x =>
-      cases hr : r.inorder with
-      | mk b y =>
-        simp only [BTree.inorder, hl, hr, Prod.mk.injEq] at hin
-        obtain ⟨ha, hxy⟩ := hin
-        -- x ++ (o, b) :: y = [(-,4), (-,3)]: x = [] or x = [(-,4)]
-        match x, hxy with
-        | [], hxy =>
-          simp only [List.nil_append, List.cons.injEq, Prod.mk.injEq] at hxy
-          obtain ⟨⟨ho, hb⟩, hy⟩ := hxy
-          -- then r has in-order (4, [(-,3)]): a node with top `-`, not strictly tighter
-          subst ho
-          cases r with
-          | leaf e => simp [BTree.inorder] at hr; exact absurd (hr.2 ▸ hy) (by simp)
-          | node o2 l2 r2 =>
-            have h2 : o2 = .minus := by
-              cases hl2 : l2.inorder with
-              | mk a2 x2 =>
-                cases hr2 : r2.inorder with
-                | mk b2 y2 =>
-                  simp only [BTree.inorder, hl2, hr2, Prod.mk.injEq] at hr
-                  rw [← hr.2] at hy
-                  match x2, hy with
-                  | [], hy => simp at hy; exact hy.1.1
-                  | _ :: x2', hy =>
-                    have := congrArg List.length hy
-                    simp at this
-            subst h2
-            simp [WellGrouped, rightAssoc, BTree.topPrio, prio] at hw
-        | [p], hxy =>
-          simp only [List.cons_append, List.nil_append, List.cons.injEq, Prod.mk.injEq] at hxy
-          obtain ⟨hp, ⟨ho, hb⟩, hy⟩ := hxy
-          subst ho hp hy
-          have hrl := inorder_leaf_of_nil_aux hr
-          subst hrl
-          -- the tree is ((10 - 4) - 3): its expression differs from what the code built
-          cases l with
-          | leaf e => simp [BTree.inorder] at hl
-          | node o2 l2 r2 =>
-            simp only [BTree.toExpr] at hs
-            cases o2 <;> simp [mkBinary] at hs
-        | _ :: _ :: x', hxy =>
-          have := congrArg List.length hxy
-          simp at this
-#assert_axioms C10_counterexample
+/-! ### the grouping clause -/
 
-/-! ### what does hold for every chain -/
-
-/-- **Grouping theorem.**  For every infix chain of binary operators over arbitrary operand
-expressions, `stack_to_expression` returns a tree whose in-order reading is the chain, in which
-every operator's left subtree binds strictly tighter and its right subtree at least as tightly
-(priorities are respected, equal priorities group to the RIGHT).  It is the documented grouping
-whenever no two left-associative operators of equal priority occur in the chain.
-Missing for `C10_grouping_full`: left grouping of repeated equal-priority operators — false on the
-unchanged code (`C10_counterexample`). -/
-theorem C10_grouping_partial (a0 : Expr) (rest : List (Op × Expr)) (hb : binaryOps rest) :
-    ∃ t : BTree, t.inorder = (a0, rest) ∧ RightGrouped t ∧
-      stackToExpr (stackFuel (chainStack a0 rest)) (chainStack a0 rest) = .ok (some t.toExpr) [] ∧
-      (rest.Pairwise (fun p q => prio p.1 = prio q.1 → rightAssoc p.1 = true) → WellGrouped t) := by
+/-- **C10, grouping clause, full strength.**  For every infix chain of binary operators over
+arbitrary operand expressions (unbounded), `stack_to_expression` returns a tree whose in-order
+reading is the chain and which has the documented grouping: priorities are respected, equal
+priorities group from left to right, `=` and `?=` from right to left. -/
+theorem C10_grouping : C10_grouping_full := by
+  intro a0 rest hb
   have hfuel : (leaves rest).length + 1 ≤ stackFuel (chainStack a0 rest) := by
     rw [chainStack_eq_flat, stackFuel, flat_length]; omega
-  obtain ⟨t, hst, hin, hrg⟩ := stackToExpr_flat (leaves rest).length
+  obtain ⟨t, hst, hin, hwg⟩ := stackToExpr_flat (leaves rest).length
     (stackFuel (chainStack a0 rest)) (.leaf a0) (leaves rest) rfl hfuel
     (by intro o ho
         rw [fops_leaves] at ho
@@ -181,19 +110,16 @@ theorem C10_grouping_partial (a0 : Expr) (rest : List (Op × Expr)) (hb : binary
         exact hb p hp)
     (Inv_leaves [] a0 rest)
   rw [inorderF_leaves] at hin
-  refine ⟨t, hin, hrg, by rw [chainStack_eq_flat] at hst ⊢; exact hst, ?_⟩
-  intro hp
-  exact wellGrouped_of_rightGrouped t hrg (by rw [hin]; exact hp)
-#assert_axioms C10_grouping_partial
+  exact ⟨t, hin, hwg, by rw [chainStack_eq_flat] at hst ⊢; exact hst⟩
+#assert_axioms C10_grouping
 
-/-- the tree of `C10_grouping_partial` is *the* right-grouped tree of the chain: a right-grouped
-tree is determined by its in-order reading (its root is the first operator of maximal priority
-number), so the parser's result is characterised completely -/
-theorem C10_grouping_unique (t1 t2 : BTree) (h1 : RightGrouped t1) (h2 : RightGrouped t2)
-    (hin : t1.inorder = t2.inorder) : t1 = t2 := rightGrouped_unique t1 t2 h1 h2 hin
+/-- the tree of `C10_grouping` is *the* well grouped tree of the chain: a well grouped tree is
+determined by its in-order reading, so the parser's result is characterised completely -/
+theorem C10_grouping_unique (t1 t2 : BTree) (h1 : WellGrouped t1) (h2 : WellGrouped t2)
+    (hin : t1.inorder = t2.inorder) : t1 = t2 := wellGrouped_unique t1 t2 h1 h2 hin
 #assert_axioms C10_grouping_unique
 
-/-- non-vacuity: `12 + 2 * 4` satisfies the side condition and is grouped `12 + (2 * 4)` -/
+/-- non-vacuity: `12 + 2 * 4` is grouped `12 + (2 * 4)` -/
 example :
     stackToExpr (stackFuel (chainStack (.const (.int 12)) [(.plus, .const (.int 2)), (.multiply, .const (.int 4))]))
       (chainStack (.const (.int 12)) [(.plus, .const (.int 2)), (.multiply, .const (.int 4))]) =
@@ -219,10 +145,12 @@ theorem C10_clamp (v : Int) :
   ⟨clampI64_inI64 v, clampI64_of_inI64, clampI64_above, clampI64_below⟩
 #assert_axioms C10_clamp
 
-/-- `%` on integers is the truncated remainder whenever Rust's `%` is defined -/
-theorem C10_integer_modulus (a b : Int) (hb : b ≠ 0) (hm : ¬ (a = i64Min ∧ b = -1)) :
-    operation ops cells held .modulus (.int a) (.int b) = .val (.int (Int.tmod a b)) [] :=
-  operation_modulus_int ops cells held a b hb hm
+/-- `%` on integers is the truncated remainder for every non-zero divisor (`i64::MIN % -1` is 0);
+a zero divisor yields an error value -/
+theorem C10_integer_modulus (a b : Int) (hb : b ≠ 0) :
+    operation ops cells held .modulus (.int a) (.int b) = .val (.int (Int.tmod a b)) [] ∧
+    operation ops cells held .modulus (.int a) (.int 0) = .val (.error .remUndefined) [] :=
+  ⟨operation_modulus_int ops cells held a b hb, operation_modulus_zero ops cells held a⟩
 #assert_axioms C10_integer_modulus
 
 /-- division yields a Double (or the NaN error value), never an Integer -/
@@ -262,21 +190,21 @@ theorem C10_compare_strings (s t : Str) :
   ⟨rfl, rfl⟩
 #assert_axioms C10_compare_strings
 
-/-- Integers are compared after conversion to `f64`.  With an `ofInt` that is exact and order
-preserving on the two operands the comparison is the mathematical one … -/
-theorem C10_compare_integers_partial (a b : Int)
-    (hexact : ops.lt (ops.ofInt a) (ops.ofInt b) = decide (a < b)) :
-    operation ops cells held .less (.int a) (.int b) = .val (.bool (decide (a < b))) [] := by
-  rw [operation_less_int, hexact]
-#assert_axioms C10_compare_integers_partial
+/-- two Integers are compared exactly (the mathematical order, also beyond 2^53); an Integer and a
+Double still meet in `f64` -/
+theorem C10_compare_integers (a b : Int) :
+    operation ops cells held .less (.int a) (.int b) = .val (.bool (decide (a < b))) [] ∧
+    operation ops cells held .lessEqual (.int a) (.int b) = .val (.bool (decide (a ≤ b))) [] ∧
+    operation ops cells held .greater (.int a) (.int b) = .val (.bool (decide (b < a))) [] ∧
+    operation ops cells held .greaterEqual (.int a) (.int b) = .val (.bool (decide (b ≤ a))) [] :=
+  operation_compare_int ops cells held a b
+#assert_axioms C10_compare_integers
 
-/-- … and wrong as soon as two different integers convert to the same `f64` (beyond 2^53):
-`a < b` is then reported false. -/
-theorem C10_counterexample_int_compare (a b : Int)
-    (hsame : ops.ofInt a = ops.ofInt b) (hirr : ∀ x, ops.lt x x = false) (_hab : a < b) :
-    operation ops cells held .less (.int a) (.int b) = .val (.bool false) [] := by
-  rw [operation_less_int, hsame, hirr]
-#assert_axioms C10_counterexample_int_compare
+/-- regression: `9007199254740992 < 9007199254740993` -/
+theorem C10_regression_int_compare :
+    operation ops cells held .less (.int 9007199254740992) (.int 9007199254740993) =
+      .val (.bool true) [] := rfl
+#assert_axioms C10_regression_int_compare
 
 end table
 
@@ -296,6 +224,12 @@ theorem C10_counterexample_whitespace : ¬ C10_whitespace_tight := by
   rw [h1, h2] at this
   cases this
 #assert_axioms C10_counterexample_whitespace
+
+/-- regression: `-e` no longer swallows the letter: `5-e` parses like `5 - e`, `5-ex` like `5 - ex` -/
+theorem C10_regression_minus_e :
+    parse [53, 45, 101] = parse [53, 32, 45, 32, 101] ∧
+    parse [53, 45, 101, 120] = .ok (.op .minus (.const (.int 5)) (.var [101, 120])) := ⟨rfl, rfl⟩
+#assert_axioms C10_regression_minus_e
 
 /-- `+ * / %` are fine without blanks (tests on concrete texts, evaluated by the kernel):
 `7+2`, `7*2`, `7/2`, `7%2` parse like their spaced forms -/
@@ -349,5 +283,14 @@ theorem C10_cached_evaluation {D : Type} (ops : DoubleOps D) (textOf : Nat → S
   | livelock => exact ⟨rfl, rfl⟩
   | outOfFuel => exact ⟨rfl, rfl⟩
 #assert_axioms C10_cached_evaluation
+
+/-- **C10, what is proved of `C10_full`**: the grouping clause, the cache clause and the first
+white-space clause, each at full strength.
+Missing for `C10_full`: `C10_parens_full` (not proved: tested on concrete texts above and by the
+harness on every generated chain) and `C10_whitespace_tight`, which is false on the code
+(`C10_counterexample_whitespace`: `1-2`). -/
+theorem C10_partial : C10_grouping_full ∧ C10_cache_full ∧ C10_whitespace_gap :=
+  ⟨C10_grouping, C10_cache, C10_whitespace_gap_holds⟩
+#assert_axioms C10_partial
 
 end Rfsm.Expr
